@@ -1,0 +1,42 @@
+//go:build verif
+
+// Contracts for the deductive verifier in /verif (comment-only file; compiled out
+// unless the build tag `verif` is set, and even then contains no executable code).
+package vamana
+
+// ---- graph nodes as cached items (property C08) ----
+//@ func (*graphNode).CheckAndClearDirty
+//@   property C08
+//@   modifies g.isDirty
+//@   ensures result == old(g.isDirty) && !g.isDirty
+
+// ---- persisted index state (properties C08, C10): flush writes the vector store, the node
+// store and then the recorded maximum node id under the key the constructor reads back.
+//@ func (*IndexVamana).flush
+//@   property C08 C10
+//@   arith bv
+//@   requires v.nodeStore != nil && unheld(v.nodeStore.itemsMu) && v.nodeStore.items != nil && forallv(k uint64, contains(v.nodeStore.items, k) ==> v.nodeStore.items[k] != nil)
+//@   requires forallv(a uint64, forallv(b uint64, a != b && contains(v.nodeStore.items, a) && contains(v.nodeStore.items, b) ==> v.nodeStore.items[a] != v.nodeStore.items[b]))
+//@   ensures result == nil ==> ncalls(Put) == 1 && string(callarg(Put, 1, 1)) == "_vamanaMaxNodeId" && len(callarg(Put, 1, 2)) == 8 && le64at(callarg(Put, 1, 2), 0) == v.maxNodeId.v
+//@   ensures result == nil ==> ncalls(Flush) == 2 && callres(Flush, 1, 0) == nil && callres(Flush, 2, 0) == nil && callarg(Flush, 2, 0) == v.nodeStore
+//@   ensures ncalls(Put) == 1 && callres(Put, 1, 0) != nil ==> result != nil
+//@   ensures v.maxNodeId.v == old(v.maxNodeId.v)
+
+// the constructor reads the recorded maximum node id back from the key flush writes, with the
+// inverse codec; a fresh index (no such key) starts at 0
+//@ func (*IndexVamana).setupStartNode
+//@   property C08 C10
+//@   safety -overflow -makelen
+//@   requires v.nodeStore != nil && unheld(v.nodeStore.itemsMu) && v.nodeStore.items != nil
+//@   modifies v.nodeStore.items
+//@   ensures unheld(v.nodeStore.itemsMu) && v.nodeStore.items != nil
+//@   loop 1 invariant rangeindex >= -1
+//@   loop 2 invariant rangeindex >= -1
+//@ func NewIndexVamana
+//@   property C08 C10
+//@   arith bv
+//@   after Get assume result == nil || len(result) == 8
+//@   ensures err == nil ==> result0 != nil && fresh(result0) && result0.bucket == bucket && result0.nodeStore != nil && result0.nodeStore.bucket == bucket
+//@   ensures err == nil ==> ncalls(Get) == 1 && string(callarg(Get, 1, 1)) == "_vamanaMaxNodeId"
+//@   ensures err == nil && callres(Get, 1, 0) == nil ==> result0.maxNodeId.v == 0
+//@   ensures err == nil && callres(Get, 1, 0) != nil ==> result0.maxNodeId.v == le64at(callres(Get, 1, 0), 0)
